@@ -49,7 +49,13 @@ def nocopy_universe():
     d["NIn"] = struct([field(1, "default", T("string"), nocopy=True), field(2, "default", T("string")), field(3, "optional", T("binary"), nocopy=True)], unk=True)
     d["NC"] = struct([field(5, "default", T("string"), nocopy=True), field(1, "default", T("binary"), nocopy=True), field(3, "default", T("string")),
                       field(4, "default", T("binary")), field(2, "optional", T("string", True), nocopy=True), field(6, "optional", T("string", True)),
-                      field(7, "default", ST("NIn", True)), field(8, "default", ST("NIn", False)), field(9, "default", L(T("string"))), field(10, "default", T("i32"))])
+                      field(7, "default", ST("NIn", True)), field(8, "default", ST("NIn", False)), field(9, "default", L(T("string"))), field(10, "default", T("i32")),
+                      # every other carrier of strings / binaries: none of them may reference the buffer
+                      field(11, "default", M(T("string"), T("i32"))), field(12, "default", M(T("string"), T("string"))), field(13, "default", L(T("binary"))),
+                      field(14, "default", SET(T("string"))), field(15, "optional", M(T("i32"), T("binary"))), field(16, "default", M(T("string"), ST("NIn", True)))])
+    # writers that know one / two more fields than the holder type NIn
+    d["WNIn1"] = struct(d["NIn"]["fields"] + [field(9, "default", T("string"))])
+    d["WNIn2"] = struct(d["NIn"]["fields"] + [field(9, "default", T("string")), field(10, "default", T("binary"))])
     return U.with_defaults(d)
 
 
@@ -196,14 +202,52 @@ def run14(prop, tier, seed, work):
             v = {"f": {"5": sv(1), "1": {"nil": False, "b": sv(2)}, "3": sv(3), "4": {"nil": False, "b": sv(4)},
                        "2": {"p": 1, "v": sv(5)} if variant != 1 else {"p": 0}, "6": {"p": 1, "v": sv(6)},
                        "7": {"p": 1, "v": inner(7)} if variant != 2 else {"p": 0}, "8": inner(9),
-                       "9": {"nil": False, "items": [sv(11), sv(12)]}, "10": [0, 0, 0, 7]}, "unk": []}
+                       "9": {"nil": False, "items": [sv(11), sv(12)]}, "10": [0, 0, 0, 7],
+                       "11": {"nil": False, "ents": [[sv(13) + [1], [0, 0, 0, 1]], [sv(14) + [2], [0, 0, 0, 2]]]},
+                       "12": {"nil": False, "ents": [[sv(15) + [3], sv(16)]]},
+                       "13": {"nil": False, "items": [{"nil": False, "b": sv(17)}, {"nil": False, "b": sv(18)}]},
+                       "14": {"nil": False, "items": [sv(19) + [4]]},
+                       "15": {"nil": variant == 1, "ents": [] if variant == 1 else [[[0, 0, 0, 9], {"nil": False, "b": sv(20)}]]},
+                       "16": {"nil": False, "ents": [[sv(21) + [5], {"p": 1, "v": inner(22)}]]}}, "unk": []}
             for o in ["asc", "desc", "rot", "evod"]:
                 n += 1
                 cases.append({"cid": "NC|%d|%d|%s" % (ln, variant, o), "w": "NC", "val": v, "ord": o, "trail": [9, 9] if n % 2 else [], "mut": "none"})
     msgs, st = vlib.gen_messages(work, defs_path, cases)
     res.tlc_states += st.get("distinct", 0)
     res.tlc_transitions += st.get("generated", 0)
+    # holder types: one / two unknown fields (the retained bytes are a copy, never a view)
+    hcases = []
+    for ln in lens:
+        for wn, extra in (("WNIn1", {"9": U.strbytes(ln, 3)}), ("WNIn2", {"9": U.strbytes(ln, 4), "10": {"nil": False, "b": U.strbytes(max(1, ln // 2), 5)}})):
+            for o in ["asc", "desc"]:
+                f = {"1": U.strbytes(ln, 1), "2": U.strbytes(ln + 1, 2), "3": {"nil": False, "b": U.strbytes(3, 6)}}
+                f.update(extra)
+                hcases.append({"cid": "NH|%s|%d|%s" % (wn, ln, o), "w": wn, "val": {"f": f, "unk": []}, "ord": o, "trail": [], "mut": "none"})
+    hmsgs, st2 = vlib.gen_messages(work, defs_path, hcases)
+    res.tlc_states += st2.get("distinct", 0)
+    res.tlc_transitions += st2.get("generated", 0)
     scen = []
+    for c in hcases:
+        m = hmsgs[c["cid"]][0]
+        steps = [{"op": "decode", "ty": "NIn", "in": m, "dest": "fresh"}, {"op": "walk", "objs": [0]},
+                 {"op": "overwrite", "obj": 0, "byte": 255}, {"op": "recheck", "obj": 0, "after": "overwrite"}]
+        sid = "C14-" + c["cid"]
+        scen.append({"sid": sid, "prop": prop, "vals": [], "steps": steps, "tags": ["holder"], "dkey": sid})
+    # a decode that fails inside the message, then the complete message: the second result is like the first-ever one
+    for ci, c in enumerate(cases):
+        if (ci % 5 if quick else ci % 2):      # 5 is coprime to the 4 field orders: all of them come up
+            continue
+        m = msgs[c["cid"]][0]
+        cuts = sorted(set([max(1, len(m) * j // 9) for j in range(1, 9)] + [8, 9, 10, 12]))
+        steps = []
+        for cut in cuts:
+            if cut < len(m):
+                steps.append({"op": "decode", "ty": "NC", "in": m[:cut], "dest": "fresh"})
+                steps.append({"op": "decode", "ty": "NC", "in": m, "dest": "fresh"})
+                steps.append({"op": "walk", "objs": [len(steps) - 1]})
+                steps.append({"op": "drop", "obj": len(steps) - 2})
+        sid = "C14-failfirst-" + c["cid"]
+        scen.append({"sid": sid, "prop": prop, "vals": [], "steps": steps, "tags": ["fail-then-ok"], "dkey": sid})
     for c in cases:
         m = msgs[c["cid"]][0]
         steps = [{"op": "decode", "ty": "NC", "in": m, "dest": "fresh"}, {"op": "walk", "objs": [0]},
